@@ -283,6 +283,14 @@ func runC13(t *testing.T, in c13Input) c13Obs {
 				}
 			}
 		}) != ""
+		if panicked && in.Mode == "clock" && op.Op == "end" && op.Day {
+			// BeginBlocker did not get to store the advanced epoch; a chain would have halted here.  Keep the clock
+			// in step with the history so that the next day end carries the next number.
+			w.app.EpochsKeeper.Epochs.Insert(ctx, epochstypes.DayEpochID, epochstypes.EpochInfo{
+				Identifier: epochstypes.DayEpochID, StartTime: GenesisTime, Duration: 24 * time.Hour, CurrentEpoch: op.E + 1,
+				CurrentEpochStartTime: now, CurrentEpochStartHeight: height, EpochCountingStarted: true,
+			})
+		}
 		after := w.snap(ctx)
 		obs.Ops = append(obs.Ops, c13Out{
 			OK: ok, Panic: panicked, Minted: after.supply.Sub(before.supply).BigInt(), Staking: after.fee.Sub(before.fee).BigInt(),
@@ -342,13 +350,24 @@ func pickDist(r *Rng) []string {
 
 func u64(x uint64) *uint64 { return &x }
 
+// pickPoly: the polynomial whose provision stays below one unibi only in cases that opted in
+func pickPoly(r *Rng, tiny bool) []string {
+	for {
+		f := c13Polys[r.Intn(len(c13Polys))]
+		if tiny || len(f) != 1 || f[0] != "400000000000" {
+			return f
+		}
+	}
+}
+
 func genC13Case(r *Rng) c13Input {
 	wild := r.Chance(1, 4)
 	epps := []uint64{1, 2, 3, 5, 7, 30}
 	maxs := []uint64{0, 1, 2, 3, 4, 6, 96}
 	epp, max := epps[r.Pick(1, 3, 3, 3, 2, 1)], maxs[r.Pick(1, 2, 3, 3, 2, 2, 1)]
+	tiny := r.Chance(1, 10)
 	in := c13Input{Mode: "direct", Params: c13Params{
-		Factors: c13Polys[r.Intn(len(c13Polys))], Dist: pickDist(r), EPP: epp, PPY: uint64(r.Range(1, 12)), Max: max,
+		Factors: pickPoly(r, tiny), Dist: pickDist(r), EPP: epp, PPY: uint64(r.Range(1, 12)), Max: max,
 	}}
 	var e uint64
 	switch r.Pick(3, 3, 2) {
@@ -398,8 +417,13 @@ func genC13Case(r *Rng) c13Input {
 		horizon = 40 + r.Intn(30)
 	}
 	days := 0
+	kick := r.Intn(4) // a disabled start is switched on after a few epochs
 	for days < horizon {
-		switch r.Pick(12, 2, 2, 1) {
+		if !wild && days == kick && !in.Params.Enabled {
+			in.Ops = append(in.Ops, c13Op{Op: "toggle", Auth: true, B: true})
+			kick = -1
+		}
+		switch r.Pick(14, 1, 1, 1) {
 		case 0:
 			in.Ops = append(in.Ops, c13Op{Op: "end", Day: true, E: e})
 			e++
@@ -408,13 +432,13 @@ func genC13Case(r *Rng) c13Input {
 				e += uint64(r.Range(1, 3)) // a gap in the epoch numbers
 			}
 		case 1:
-			b := r.Chance(3, 5)
+			b := r.Chance(1, 2)
 			in.Ops = append(in.Ops, c13Op{Op: "toggle", Auth: !r.Chance(1, 8), B: b})
 		case 2:
 			op := c13Op{Op: "edit", Auth: !r.Chance(1, 10)}
 			switch r.Pick(3, 3, 1, 1) {
 			case 0:
-				f := c13Polys[r.Intn(len(c13Polys))]
+				f := pickPoly(r, tiny)
 				op.Factors = &f
 			case 1:
 				d := pickDist(r)
@@ -422,7 +446,7 @@ func genC13Case(r *Rng) c13Input {
 			case 2:
 				op.PPY = u64(uint64(r.Range(1, 24)))
 			case 3:
-				f := c13Polys[r.Intn(len(c13Polys))]
+				f := pickPoly(r, tiny)
 				d := pickDist(r)
 				op.Factors, op.Dist = &f, &d
 			}
@@ -458,7 +482,7 @@ func genC13Case(r *Rng) c13Input {
 }
 
 func TestC13(t *testing.T) {
-	cfg := LoadCfg(t, 240, 4000)
+	cfg := LoadCfg(t, 160, 3000)
 	em := NewEmitter(t, cfg.Out)
 	defer em.Close()
 	run := func(in c13Input) { em.Emit(in, runC13(t, in), nil) }
